@@ -123,6 +123,30 @@ func lintObj(o *Obj, reg lint.Registry) (rs *zlint.ResultSet, panicMsg string) {
 	}
 }
 
+// lintEntry: the public entry points other than Lint*Ex with an explicit registry
+func lintEntry(o *Obj, which string) (rs *zlint.ResultSet, panicMsg string) {
+	defer func() {
+		if e := recover(); e != nil {
+			rs, panicMsg = nil, fmt.Sprint(e)
+		}
+	}()
+	switch o.Kind + "/" + which {
+	case "cert/plain":
+		return zlint.LintCertificate(o.Cert), ""
+	case "crl/plain":
+		return zlint.LintRevocationList(o.CRL), ""
+	case "ocsp/plain":
+		return zlint.LintOcspResponse(o.OCSP), ""
+	case "cert/nil-registry":
+		return zlint.LintCertificateEx(o.Cert, nil), ""
+	case "crl/nil-registry":
+		return zlint.LintRevocationListEx(o.CRL, nil), ""
+	case "ocsp/nil-registry":
+		return zlint.LintOcspResponseEx(o.OCSP, nil), ""
+	}
+	return nil, "unknown entry"
+}
+
 type metaOf struct {
 	md   lint.LintMetadata
 	kind string
@@ -869,6 +893,19 @@ func subSweep(out string, seed uint64, tier string, arg string) {
 		for _, fr := range filteredRegs {
 			rs2, p2 := lintObj(o, fr.reg)
 			lst.checkC01(o, fr.reg, rs2, p2, fr.desc)
+		}
+		// the other public entry points: the functions without "Ex" and "Ex" with a nil registry all mean the global registry
+		if lst.props["C01"] && rs != nil && lr.Evaluations%4 == 0 {
+			for _, ep := range []string{"plain", "nil-registry"} {
+				rsE, pE := lintEntry(o, ep)
+				if pE != "" || rsE == nil {
+					lr.violate(Violation{"C01", fmt.Sprintf("entry point %s panics or returns nothing on %s, which LintXEx(obj, GlobalRegistry()) lints: %s", ep, o.Name, firstLine(pE)), "entry:" + ep, replayOf(o, nil)})
+					continue
+				}
+				if d, ok := sameResults(rs, rsE); !ok {
+					lr.violate(Violation{"C01", fmt.Sprintf("entry point %s and LintXEx(obj, GlobalRegistry()) disagree on %s: %s", ep, o.Name, d), "entry:" + ep, replayOf(o, map[string]interface{}{"diff": d})})
+				}
+			}
 		}
 	}
 	type jobResult struct {
